@@ -466,14 +466,14 @@ class GeneralMirrors(Contract):
                                   "v%d.source_repository" % i: None})
                 yield f
 
-    def native_eval(self, f):
+    def _native_tree(self, f):
         TI = self.src.mods["treeinfo"]
         ti = TI.TreeInfo()
         ti.release.name, ti.release.version, ti.release.short = f["rel.name"], f["rel.version"], f["rel.short"]
         ti.tree.arch, ti.tree.build_timestamp, ti.tree.platforms = f["tree.arch"], f["tree.ts"], set([f["tree.p"]])
         uids = [f["v%d.uid" % i] for i in range(self.nvar)]
         if len(set(uids)) != len(uids) or not all(isinstance(u, str) for u in uids):
-            return ("skip", None), None
+            return None, uids
         for i, u in enumerate(uids):
             v = TI.Variant(ti)
             v.id = v.uid = u
@@ -485,18 +485,16 @@ class GeneralMirrors(Contract):
             ti.release.validate()
             ti.tree.validate()
         except Exception:
-            return ("skip", None), None
+            return None, uids
         if not isinstance(f["tree.ts"], int):
-            return ("skip", None), None
-        parser = ti._get_parser()
-        mv = uids[self.nvar - 1] if self.main else None
-        nat = native_call(ti.serialize, parser, main_variant=mv)
-        if nat[0] == "raise":
-            return nat, {"valid_tree_is_written": False}
+            return None, uids
+        return ti, uids
+
+    def _native_clauses(self, f, uids, parser, mv):
         if not (parser.has_section("general") and parser.has_section("release") and parser.has_section("tree")):
-            return nat, {"general_section_written": False}
+            return {"general_section_written": False}
         g, r, t = dict(parser.items("general")), dict(parser.items("release")), dict(parser.items("tree"))
-        first = mv if self.main else sorted(uids)[0]
+        first = mv if mv is not None else sorted(uids)[0]
         i = uids.index(first)
         is_src = f["tree.arch"] == "src"
         pk = True
@@ -504,16 +502,65 @@ class GeneralMirrors(Contract):
             pv, fv = f.get("v%d.%s" % (i, prim)), f.get("v%d.%s" % (i, fall))
             exp = pv if pv is not None else (fv if is_src else None)
             pk = pk and g.get(opt) == exp
-        cl = {"general_section_written": True,
-              "family_version_name_mirror_release": g.get("family") == r.get("name") and g.get("version") == r.get("version") and
-              g.get("name") == "%s %s" % (f["rel.name"], f["rel.version"]),
-              "arch_platforms_mirror_tree": g.get("arch") == t.get("arch") == f["tree.arch"] and g.get("platforms") == t.get("platforms"),
-              "timestamp_is_integer_build_timestamp": g.get("timestamp") == str(int(f["tree.ts"])),
-              "variant_is_requested_or_first": g.get("variant") == first,
-              "variants_lists_sorted_top_level": g.get("variants") == ",".join(sorted(uids)),
-              "tree_variants_option_sorted_like_general": t.get("variants") == g.get("variants"),
-              "packagedir_repository_of_main_variant": pk}
-        return nat, cl
+        return {"general_section_written": True,
+                "family_version_name_mirror_release": g.get("family") == r.get("name") and g.get("version") == r.get("version") and
+                g.get("name") == "%s %s" % (f["rel.name"], f["rel.version"]),
+                "arch_platforms_mirror_tree": g.get("arch") == t.get("arch") == f["tree.arch"] and g.get("platforms") == t.get("platforms") ==
+                ",".join(sorted(set([f["tree.p"], f["tree.arch"]]))),
+                "timestamp_is_integer_build_timestamp": g.get("timestamp") == str(int(f["tree.ts"])),
+                "variant_is_requested_or_first": g.get("variant") == first,
+                "variants_lists_sorted_top_level": g.get("variants") == ",".join(sorted(uids)),
+                "tree_variants_option_sorted_like_general": t.get("variants") == g.get("variants"),
+                "packagedir_repository_of_main_variant": pk}
+
+    def native_eval(self, f):
+        ti, uids = self._native_tree(f)
+        if ti is None:
+            return ("skip", None), None
+        parser = ti._get_parser()
+        mv = uids[self.nvar - 1] if self.main else None
+        nat = native_call(ti.serialize, parser, main_variant=mv)
+        if nat[0] == "raise":
+            return nat, {"valid_tree_is_written": False}
+        return nat, self._native_clauses(f, uids, parser, mv)
+
+    def history_search(self, run):
+        """bounded: the SAME tree object written several times -- first with another main variant, then (after the tree arch was changed) as
+        the contract's own call: the second output must be what a fresh object with the same content gives (the documented function of
+        the content)."""
+        import random
+        for f in self.sample_inputs(random.Random(run.seed)):
+            for other_arch in (None, "aarch64"):
+                ti, uids = self._native_tree(f)
+                if ti is None:
+                    continue
+                # (the second call is made without a main variant: "or else the alphabetically first" must not remember the first call)
+                mv = None
+                try:
+                    ti.serialize(ti._get_parser(), main_variant=sorted(uids)[-1])
+                    f2 = dict(f)
+                    if other_arch and f["tree.arch"] != other_arch:
+                        ti.tree.arch = other_arch
+                        f2["tree.arch"] = other_arch
+                    parser = ti._get_parser()
+                    ti.serialize(parser, main_variant=mv)
+                except Exception:
+                    continue
+                cl = self._native_clauses(f2, uids, parser, mv)
+                for k, v in cl.items():
+                    if v is False:
+                        desc = ("%s, called on an object that had been written before with main_variant=%r%s"
+                                % (self.describe(f), sorted(uids)[-1], " and whose tree arch was then set to %r" % other_arch if other_arch else ""))
+                        script = ("import contracts\nfrom pyvc.source import Source\nsrc = Source(os.environ.get('VERIF_REPO', '/repo')); src.import_native()\n"
+                                  "c = contracts.get(%r, src)\nf = %s\nti, uids = c._native_tree(f)\n"
+                                  "ti.serialize(ti._get_parser(), main_variant=sorted(uids)[-1])\nf2 = dict(f)\n"
+                                  "if %r: ti.tree.arch = %r; f2['tree.arch'] = %r\n"
+                                  "parser = ti._get_parser(); ti.serialize(parser, main_variant=%r)\ncl = c._native_clauses(f2, uids, parser, %r)\nprint(cl)\n"
+                                  "if cl.get(%r) is False: REPRODUCED('second write of the same object differs from the documented function of its content: %s')\n"
+                                  "NOT_REPRODUCED()\n" % (self.key, concretise.py_repr(f), bool(other_arch and f["tree.arch"] != other_arch), other_arch, other_arch,
+                                                           mv, mv, k, k))
+                        return (k, desc + " -> clause '%s' fails" % k, script)
+        return None
 
     def describe(self, f):
         return "TreeInfo.serialize(%s) with top-level variants inserted in the order %r" % (
